@@ -1,6 +1,6 @@
 """C47 — Paje traces are well formed.
 Theorems: lean/SgVerif/C47/Props.lean (buffer sortedness / dump prefix / emitted order under the no-late-insert hypothesis;
-automaton soundness).  Correspondence: generated S4U programs x tracing options -> the produced trace file is judged line
+automaton soundness; destroy_balanced_spec: push / pop balance when a container is destroyed).  Correspondence: generated S4U programs x tracing options -> the produced trace file is judged line
 by line by the compiled Lean automaton (drv_C47); a rejected line is a violation with (program, options) as replay."""
 import json
 import os
@@ -43,7 +43,98 @@ def gen_prog(rng, profile):
     return lines
 
 
-def convert(path, cid, problems):
+ACTOR_OPTS = [["actor"], ["actor", "uncategorized"], ["actor", "platform"], ["actor", "categorized", "uncategorized"]]
+SCENARIOS = ["ok", "matched-timeout-sender", "matched-timeout-receiver", "matched-cancel", "matched-linkfail",
+             "unmatched-send-timeout", "unmatched-recv-timeout", "unmatched-cancel", "kill-sleeping", "kill-in-matched-comm"]
+
+
+def gen_fault_prog(rng):
+    """profile 'commfault': pairs of actors on their own mailbox; the communication of a pair is MATCHED (both sides
+    present) and then times out on the sender's or the receiver's side, is cancelled by the sender, or fails because the links
+    are turned off mid-transfer; or it is unmatched and times out / is cancelled; or an actor is killed while it sleeps or
+    while it is in a matched communication.  Every wait has a finite timeout (no deadlock).  Around it: sleeps and execs, so
+    that the containers live on after the failure and are destroyed later."""
+    cats = ["compute", "data"]
+    lines = ["cat " + " ".join(cats)]
+    actors = []                                     # [host, ops]
+
+    def noise(lo, hi):
+        return [rng.choice(["s0.1", "s0.5", "e1e7", "e2e6:compute", "s0"]) for _ in range(rng.range(lo, hi))]
+
+    for pair in range(rng.range(1, 3)):
+        sc = rng.choice(SCENARIOS) if not rng.chance(1, 25) else "kill-in-unmatched-send"
+        mb = 10 + pair
+        hs = rng.below(7)
+        hr = (hs + 1 + rng.below(6)) % 7             # another host: the transfer of 1e9 bytes lasts tens of seconds
+        tmo = rng.choice(["0.2", "1", "3.5"])
+        snd, rcv, third = None, None, None
+        if sc == "ok":
+            snd, rcv = ["P%d:1e6:50" % mb], ["G%d:50" % mb]
+        elif sc == "matched-timeout-sender":
+            snd, rcv = ["P%d:1e9:%s" % (mb, tmo)], ["G%d:50" % mb]
+        elif sc == "matched-timeout-receiver":
+            snd, rcv = ["P%d:1e9:50" % mb], ["G%d:%s" % (mb, tmo)]
+        elif sc == "matched-cancel":
+            snd, rcv = ["X%d:1e9:%s" % (mb, tmo)], ["G%d:50" % mb]
+        elif sc == "matched-linkfail":
+            snd, rcv, third = ["P%d:1e9:50" % mb], ["G%d:50" % mb], ["s" + tmo, "F0.1"]
+        elif sc == "unmatched-send-timeout":
+            snd = ["P%d:1e6:%s" % (mb, tmo)]
+        elif sc == "unmatched-recv-timeout":
+            rcv = ["G%d:%s" % (mb, tmo)]
+        elif sc == "unmatched-cancel":
+            snd = ["X%d:1e6:%s" % (mb, tmo)]
+        elif sc == "kill-sleeping":
+            rcv, third = ["s5"], ["s" + tmo, "k%d" % len(actors)]
+        elif sc == "kill-in-matched-comm":
+            snd, rcv = ["P%d:1e9:50" % mb], ["G%d:50" % mb]
+            third = ["s" + tmo, "k%d" % (len(actors) + rng.below(2))]
+        else:                                        # kill-in-unmatched-send
+            snd, third = ["P%d:1e9:50" % mb], ["s" + tmo, "k%d" % len(actors)]
+        for host, role in ((hs, snd), (hr, rcv), (rng.below(7), third)):
+            if role is not None:
+                # the role of a pair starts at t = 0 on both sides (matched at once), the noise comes after it
+                actors.append([host, role + noise(1, 3)])
+    for host, ops in actors:
+        lines.append("%d 1 %s" % (host, " ".join(ops)))
+    return lines
+
+
+def parse_log(stdout):
+    """harness stdout -> ({actor container name: [(dir, outcome, matched)]}, set of killed actors)"""
+    comms, killed = {}, set()
+    for l in stdout.split("\n"):
+        t = l.split()
+        if len(t) == 5 and t[0] == "C":
+            comms.setdefault(t[1], []).append((t[2], t[3], int(t[4])))
+        elif len(t) == 2 and t[0] == "K":
+            killed.add(t[1])
+    return comms, killed
+
+
+def cause_of_leftover(name, pushed, comms, killed):
+    """name the class of 'container destroyed with <pushed> states still pushed' after what its actor did.
+    Classes seen on the unchanged library: a killed actor; a communication that never had a peer and timed out / was
+    cancelled; a detached send still in flight when its sender ends.  A MATCHED communication that does not end in DONE
+    (timeout, cancel, link failure) is popped on both sides by the Comm::on_completion callback: leftovers that the unmatched /
+    detached operations of the actor cannot account for are then their own class."""
+    if name in killed:
+        return "killed-actor"
+    ops = comms.get(name, [])
+    unmatched = [o for o in ops if o[1] == "detached" or (o[2] == 0 and o[1] != "done")]
+    matched_bad = [o for o in ops if o[2] == 1 and o[1] != "done"]
+    if matched_bad and pushed > len(unmatched):
+        return "matched-comm-not-done"
+    if any(o[1] == "timeout" for o in unmatched):
+        return "unmatched-timeout"
+    if any(o[1] == "canceled-by-me" for o in unmatched):
+        return "unmatched-cancel"
+    if any(o[1] == "detached" for o in unmatched):
+        return "detached-send-unfinished"
+    return "unexplained"
+
+
+def convert(path, cid, problems, names=None):
     out = ["begin %d =>" % cid]
     for l in open(path, errors="replace"):
         l = l.strip()
@@ -56,17 +147,21 @@ def convert(path, cid, problems):
             continue
         if l[0] == "%":
             continue
+        if names is not None and l.startswith("6 ") and l.count('"') >= 2:
+            names[l.split()[2]] = l.split('"')[1]
         t = l.replace('"', " ").split()
         if int(t[0]) >= 6:
             a, b = (t[1].split(".") + ["0"])[:2]
             t[1] = str(int(a) * 10**6 + int((b + "000000")[:6]))
         out.append("L " + " ".join(t) + " =>")
+    out.append("end %d =>" % cid)
     return out
 
 
 def run(ctx):
     ctx.cov["rule"] = ("(program, tracing options) pairs: generated S4U scripts (1-5 actors, execs/sleeps/comms with categories, "
-                       "actor creation and kills at t>0 in the 'dynamic' profile) x 8 option sets; non-trivial = distinct pair whose "
+                       "actor creation and kills at t>0 in the 'dynamic' profile; 'commfault' profile with tracing/actor: matched communications "
+                       "that time out / are cancelled / fail on a link failure, unmatched ones, killed actors) x 8 option sets; non-trivial = distinct pair whose "
                        "trace has >= 20 event lines")
     ctx.assumptions += ["timestamps are compared at the printed precision (6 digits)",
                         "MPI programs under smpirun -trace are not exercised (S4U only)",
@@ -93,7 +188,14 @@ def run(ctx):
             prog = gen_prog(r, prof)
             for o in ([r.choice(OPTS), r.choice(OPTS)] if ctx.tier == "quick" else OPTS):
                 cases.append((prog, o, prof))
-    lines, spans, problems = [], [], []
+        nf = 24 if ctx.tier == "quick" else 300
+        if ctx.broken:
+            nf *= 10
+        for i in range(nf):
+            r = rng.fork(100000 + i)
+            cases.append((gen_fault_prog(r), r.choice(ACTOR_OPTS), "commfault"))
+    lines, spans, problems, logs = [], [], [], []
+    matched_not_done = 0
     for cid, (prog, opts, prof) in enumerate(cases):
         sp = os.path.join(ctx.work, "prog.txt")
         tp = os.path.join(ctx.work, "t.trace")
@@ -103,6 +205,7 @@ def run(ctx):
         cmd = [h, sp, "--log=root.thres:critical", "--cfg=tracing:yes", "--cfg=tracing/filename:" + tp] + \
               ["--cfg=tracing/%s:yes" % o for o in opts]
         p = subprocess.run(cmd, capture_output=True, text=True, timeout=120, env={**os.environ, **ctx.sg_env()})
+        logs.append((parse_log(p.stdout), {}))
         if p.returncode != 0 and "TracingError" in p.stderr and "not found in parent type" in p.stderr:
             # the library itself refuses to go on: it was about to use a variable type that was never declared
             what = [l for l in p.stderr.split("\n") if "TracingError" in l][0][-160:]
@@ -113,11 +216,26 @@ def run(ctx):
                             {"program": prog, "options": opts, "profile": prof}, key="categorized-host-utilization-undeclared-type")
             spans.append((len(lines), len(lines)))
             continue
+        if p.returncode in (-11, 139) and "actor" in opts:
+            # the simulation dies inside the tracing callbacks: does the same program run without tracing?
+            p0 = subprocess.run([h, sp, "--log=root.thres:critical"], capture_output=True, text=True, timeout=120,
+                                env={**os.environ, **ctx.sg_env()})
+            if p0.returncode == 0:
+                ncrash = getattr(ctx, "_c47_segv", 0)
+                ctx._c47_segv = ncrash + 1
+                if ncrash == 0:
+                    ctx.violation("with tracing/actor the simulation dies with SIGSEGV (it runs to the end without tracing): no "
+                                  "complete trace is produced; killed actors before the crash: %s" % sorted(logs[-1][0][1]),
+                                  {"program": prog, "options": opts, "profile": prof},
+                                  key="actor-tracing-crash/%s" % ("killed-actor" if logs[-1][0][1] else "other"))
+                spans.append((len(lines), len(lines)))
+                continue
         if p.returncode != 0 or not os.path.exists(tp):
             ctx.broken.append({"kind": "harness-run", "rc": p.returncode, "stderr": p.stderr[-800:], "program": prog, "options": opts})
             spans.append((len(lines), len(lines)))
             continue
-        conv = convert(tp, cid, problems)
+        matched_not_done += sum(1 for ops in logs[-1][0][0].values() for o in ops if o[2] == 1 and o[1] != "done")
+        conv = convert(tp, cid, problems, logs[-1][1])
         spans.append((len(lines), len(lines) + len(conv)))
         lines += conv
     for pr in problems[:3]:
@@ -126,8 +244,10 @@ def run(ctx):
     if rc != 0 or not verdicts or verdicts[-1] != "END %d" % len(lines):
         ctx.broken.append({"kind": "driver-run", "rc": rc, "stderr": err[-2000:]})
         return
+    if not ctx.replay and matched_not_done == 0:
+        ctx.broken.append({"kind": "sanity", "what": "no matched communication that times out / fails / is cancelled was run"})
     seen, keys, profs = set(), {}, {}
-    for (prog, opts, prof), (a, b) in zip(cases, spans):
+    for (prog, opts, prof), (a, b), ((comms, killed), names) in zip(cases, spans, logs):
         profs[prof] = profs.get(prof, 0) + 1
         nev = 0
         for l, v in zip(lines[a:b], verdicts[a:b]):
@@ -138,6 +258,12 @@ def run(ctx):
                 ctx.cov["traces_validated_against_impl"] += 1
             elif v.startswith("MONFAIL"):
                 key = v.split("key=")[1].split()[0]
+                if key == "state-left-pushed":
+                    # which container, how many states; name the class after what that actor did (harness log)
+                    f = dict(x.split("=") for x in v.split() if "=" in x)
+                    name = names.get(f.get("container", ""), "?")
+                    key += "/" + cause_of_leftover(name, int(f.get("pushed", "1")), comms, killed)
+                    v += " container-name=%s its-communications=%s killed=%s" % (name, comms.get(name, []), name in killed)
                 keys[key] = keys.get(key, 0) + 1
                 if keys[key] == 1:
                     ctx.violation(v, {"program": prog, "options": opts, "line": l, "verdict": v, "profile": prof}, key=key)
@@ -147,6 +273,7 @@ def run(ctx):
         if nev >= 20 and k not in seen:
             seen.add(k)
             ctx.cov["distinct_nontrivial"] += 1
+    ctx.cov["matched_comms_not_done"] = matched_not_done
     ctx.cov["rejections_by_key"] = keys
     ctx.cov["profiles"] = profs
     ctx.cov["samples"] = [" | ".join(c[0]) + " @ " + ",".join(c[1]) for c in cases[:4]]
